@@ -17,6 +17,12 @@ CLAIMED = {
    text="ASTs from six sources (random Cypher.g4 derivations, corpus mutations incl. literal->$param with fresh and bound-variable names, typed generated queries, every shipped query, builder programs through package query, cypher model constructors) x parameter maps (31 supported and 25 unsupported value kinds, names that do / do not occur) x kind-mapper knowledge. Each case is decided by: no panic; marker interleaving A,B,A (no value of one call appears in another call's result, results stable); 5 repeated Translate+Translated calls byte-identical with equal parameter maps and stable error text; translation of an independent deep clone gives the same result; FromCypher; 8 goroutines on the shared AST, caller's map and one kind mapper; address-level snapshots of the AST and the parameter map compared after every phase.",
    note="Schedules are sampled (8 goroutines; -race in thorough only); totality is established only for explored shapes (10 panic/impurity roots found and repaired); a hang would surface as a timeout = inconclusive, not as a violation; a write into spare slice capacity of a caller's slice shows only under -race.",
    design="§4 C05"),
+ "C06": dict(
+   category="exploration",
+   technique="metamorphic property-based testing (rapid): binding-aware renaming applied to the parsed model (own scope analysis, cross-checked by emit + re-parse), PostgreSQL-token differential of the two translations",
+   text="Every shipped translatable query under 5 systematic hostile renamings (enumerated), plus randomised adversarial renamings of shipped and typed-generated multi-clause read queries (WITH aliases, UNWIND, quantifier and path variables, pattern predicates, parameters, ORDER BY on aliases): user variables, parameters and aliases are renamed injectively per scope into fresh names, translator-internal identifiers (n0 e0 s0 i0 pi0 path depth root_id ...), SQL keywords, case variants and cross-namespace collisions; the SQL token sequences of Q and rho(Q) must be equal except result-column labels of the outermost SELECT (and bare ORDER BY references to them), which map by rho; emitted parameter maps must be equal; rho(Q) translates whenever Q does and never panics.",
+   note="Tokens, not execution, are judged (semantic consequences of capture are C01's); names needing backticks are C04's; four open findings are excluded by construction (ORDER BY alias emitted as a bare identifier, aggregate-count alias used as a CTE column, alias shadowing a visible variable, symbol-keyed liveness analyses) - while the last two are open, per-scope reuse of one name is switched off.",
+   design="§4 C06"),
  "C07": dict(
    category="exploration",
    technique="property-based testing (rapid): grammar-derivation, corpus-mutation and sibling generators; round-trip (emit-parse fixed point) and metamorphic (content-token multiset, single-token sibling) oracles",
